@@ -273,7 +273,7 @@ def auto_cases(draw, budget):
 
 
 def shard_generated(acc, shard, nshards, n_bisc, n_priv, n_auto, budget):
-    engine.hyp_run(acc, "bisc", check_bisc, bisc_cases(), n_bisc, shard)
+    engine.hyp_run(acc, "bisc", check_bisc, bisc_cases(5 if n_bisc < 200 else 6), n_bisc, shard)
     engine.hyp_run(acc, "private", check_private, private_cases(), n_priv, shard)
     if n_auto:
         engine.hyp_run(acc, "auto", check_auto, auto_cases(budget), n_auto, shard)
